@@ -3,6 +3,7 @@
 use read_fonts::ReadError;
 use serde::{de::DeserializeOwned, Serialize};
 use serde_json::Value;
+use crate::mutate::{get_mut, Step};
 use vf_core::{guard, PanicInfo};
 use write_fonts::{dump_table, error::Error, validate::Validate, FontWrite};
 
@@ -11,6 +12,8 @@ use write_fonts::{dump_table, error::Error, validate::Validate, FontWrite};
 pub struct Diff {
     /// field path with array indices erased (`.a.b[].c`)
     pub path: String,
+    /// concrete path
+    pub cpath: Vec<Step>,
     pub kind: DiffKind,
     pub written: String,
     pub read: String,
@@ -58,49 +61,48 @@ fn short(v: &Value) -> String {
     }
 }
 
-pub fn diff_values(a: &Value, b: &Value, path: &mut String, out: &mut Vec<Diff>) {
+pub fn diff_values(a: &Value, b: &Value, path: &mut String, cpath: &mut Vec<Step>, out: &mut Vec<Diff>) {
     if out.len() >= 12 || a == b {
         return;
     }
+    let mk = |kind: DiffKind, path: &String, cpath: &Vec<Step>, w: String, r: String| Diff { path: path.clone(), cpath: cpath.clone(), kind, written: w, read: r };
     match (a, b) {
         (Value::Object(ma), Value::Object(mb)) => {
             let same_keys = ma.len() == mb.len() && ma.keys().all(|k| mb.contains_key(k));
             if !same_keys {
-                out.push(Diff { path: path.clone(), kind: DiffKind::Variant, written: short(a), read: short(b) });
+                out.push(mk(DiffKind::Variant, path, cpath, short(a), short(b)));
                 return;
             }
             for (k, va) in ma {
                 let l = path.len();
                 path.push('.');
                 path.push_str(k);
-                diff_values(va, &mb[k], path, out);
+                cpath.push(Step::Key(k.clone()));
+                diff_values(va, &mb[k], path, cpath, out);
+                cpath.pop();
                 path.truncate(l);
             }
         }
         (Value::Array(xa), Value::Array(xb)) => {
             if xa.len() != xb.len() {
                 let kind = if xb.len() > xa.len() { DiffKind::ArrayLonger } else { DiffKind::ArrayShorter };
-                out.push(Diff {
-                    path: path.clone(),
-                    kind,
-                    written: format!("len {}", xa.len()),
-                    read: format!("len {}", xb.len()),
-                });
-                // also look at the common prefix (one level of detail)
+                out.push(mk(kind, path, cpath, format!("len {}", xa.len()), format!("len {}", xb.len())));
             }
             let l = path.len();
             path.push_str("[]");
-            for (va, vb) in xa.iter().zip(xb.iter()) {
-                diff_values(va, vb, path, out);
+            for (i, (va, vb)) in xa.iter().zip(xb.iter()).enumerate() {
+                cpath.push(Step::Idx(i));
+                diff_values(va, vb, path, cpath, out);
+                cpath.pop();
                 if out.len() >= 12 {
                     break;
                 }
             }
             path.truncate(l);
         }
-        (Value::Null, _) => out.push(Diff { path: path.clone(), kind: DiffKind::NullToSome, written: short(a), read: short(b) }),
-        (_, Value::Null) => out.push(Diff { path: path.clone(), kind: DiffKind::SomeToNull, written: short(a), read: short(b) }),
-        _ => out.push(Diff { path: path.clone(), kind: DiffKind::Scalar, written: short(a), read: short(b) }),
+        (Value::Null, _) => out.push(mk(DiffKind::NullToSome, path, cpath, short(a), short(b))),
+        (_, Value::Null) => out.push(mk(DiffKind::SomeToNull, path, cpath, short(a), short(b))),
+        _ => out.push(mk(DiffKind::Scalar, path, cpath, short(a), short(b))),
     }
 }
 
@@ -133,6 +135,9 @@ pub struct Done {
     pub reread_invalid: Option<String>,
     /// third generation differs from second (read(dump(v2)) != v2)
     pub second_gen_unstable: bool,
+    /// Some(true): all conditional fields that read back as None were proven
+    /// unneeded (value without them validates and compiles to the same bytes)
+    pub gated_fields_proven_unneeded: Option<bool>,
 }
 
 /// Reads compiled bytes back into the owned type, with read arguments derived
@@ -177,13 +182,38 @@ where
     let written = serde_json::to_value(&v).unwrap_or(Value::Null);
     let mut diffs = vec![];
     let mut reread_invalid = None;
+    let mut gated_fields_proven_unneeded = None;
     if !equal {
         let j2 = serde_json::to_value(&v2).unwrap_or(Value::Null);
         let mut p = String::new();
-        diff_values(&written, &j2, &mut p, &mut diffs);
+        let mut cp = vec![];
+        diff_values(&written, &j2, &mut p, &mut cp, &mut diffs);
         if diffs.is_empty() {
             // PartialEq says different, JSON says equal: report as a scalar diff at root
-            diffs.push(Diff { path: "<eq>".into(), kind: DiffKind::Scalar, written: "json-equal".into(), read: "json-equal".into() });
+            diffs.push(Diff { path: "<eq>".into(), cpath: vec![], kind: DiffKind::Scalar, written: "json-equal".into(), read: "json-equal".into() });
+        }
+        // Conditional fields (Option<..>, not offset markers) that were written
+        // as Some and read back as None: legitimate only if the value with
+        // those fields set to None still validates (the validator's own
+        // version/flag gate says "not required") and compiles to the very
+        // same bytes.
+        let gated: Vec<&Diff> = diffs.iter().filter(|d| d.kind == DiffKind::SomeToNull && !d.path.ends_with(".obj")).collect();
+        if !gated.is_empty() {
+            let mut j = written.clone();
+            let mut ok = true;
+            for d in &gated {
+                match get_mut(&mut j, &d.cpath) {
+                    Some(slot) => *slot = Value::Null,
+                    None => ok = false,
+                }
+            }
+            if ok {
+                ok = match T::deserialize(&j) {
+                    Ok(vn) => matches!(guard(|| vn.validate().is_ok() && dump_table(&vn).map(|b| b == bytes).unwrap_or(false)), Ok(true)),
+                    Err(_) => false,
+                };
+            }
+            gated_fields_proven_unneeded = Some(ok);
         }
         if let Ok(Err(e)) = guard(|| v2.validate()) {
             let mut s = format!("{:?}", e);
@@ -211,7 +241,7 @@ where
             Ok(b2 == bytes)
         }
     };
-    Outcome::Done(Box::new(Done { bytes, written, equal, diffs, redump, reread_invalid, second_gen_unstable }))
+    Outcome::Done(Box::new(Done { bytes, written, equal, diffs, redump, reread_invalid, second_gen_unstable, gated_fields_proven_unneeded }))
 }
 
 /// Does `json` deserialise into T and serialise back to exactly `json`?
